@@ -278,6 +278,10 @@ impl Report {
             self.samples.push(v);
         }
     }
+    /// Number of requests queued for the model and not yet flushed.
+    pub fn pending_len(&self) -> usize {
+        self.pending.len()
+    }
     /// Queue a request for the model together with the implementation's answer.
     pub fn expect(&mut self, request: String, impl_answer: String) {
         self.pending.push((request, impl_answer));
